@@ -461,7 +461,7 @@ func TestVerifC09Stress(t *testing.T) {
 		wg.Add(1)
 		done := make(chan struct{})
 		// the statistics reporter is one more concurrent actor of the station (main.go registers the manager as a
-		// statistics module; the Stats singleton reports every 5 s): here it reports every 20 ms, from before the
+		// statistics module; the Stats singleton reports every 5 s): here it reports every 0.3 ms, from before the
 		// pipeline starts until the round is over
 		Stat().AddStatsModule(e.rm, false)
 		statsStop := make(chan struct{})
@@ -476,7 +476,7 @@ func TestVerifC09Stress(t *testing.T) {
 				}
 				Stat().PrintStats(false)
 				statsReports.Add(1)
-				time.Sleep(20 * time.Millisecond)
+				time.Sleep(300 * time.Microsecond)
 			}
 		}()
 		go func() { e.rm.HandleRegUpdates(ctx, regChan, &wg); close(done) }()
